@@ -25,7 +25,7 @@ def ctx_span(code: str, verb: str) -> tuple | None:
         return ((0, 4),)
     if code == "0404":
         return ((0, 2), (2, 4), (10, 12))  # zone, zone/DHW marker (20/23), fragment number
-    if code in ("0418", "3220"):
+    if code in ("0418", "3220", "2411"):  # log index / OpenTherm msg-id / fan parameter id: third byte
         return ((4, 6),)
     if code == "1FC9" or code in CODE_IDX_ARE_NONE or code in ("7FFF", "10E0", "0001"):
         return None
